@@ -32,8 +32,15 @@ def _is_generator(fn):
 
 
 def _returns_only_structured(stmts):
-    """Every `return` sits in the function's if/else skeleton (not inside loops, try, with)."""
-    for s in stmts:
+    """Every `return` sits in the function's if/else skeleton (not inside loops / with); a `try` whose branches return is accepted as the
+    LAST statement of its block (nothing of the function runs after it)."""
+    for k, s in enumerate(stmts):
+        if isinstance(s, ast.Try) and any(isinstance(n, ast.Return) for n in ast.walk(s)):
+            if k != len(stmts) - 1 or any(isinstance(n, ast.Return) for f in s.finalbody for n in ast.walk(f)):
+                return False
+            if not (_returns_only_structured(s.body) and _returns_only_structured(s.orelse) and all(_returns_only_structured(h.body) for h in s.handlers)):
+                return False
+            continue
         if isinstance(s, (ast.For, ast.While, ast.Try, ast.With, ast.AsyncFor, ast.AsyncWith)):
             if any(isinstance(n, ast.Return) for n in ast.walk(s)):
                 return False
@@ -61,6 +68,12 @@ def _eliminate_returns(stmts, make_assign):
     for k, s in enumerate(stmts):
         if isinstance(s, ast.Return):
             out.extend(make_assign(s.value if s.value is not None else ast.Constant(value=None), s))
+            return out
+        if isinstance(s, ast.Try) and any(isinstance(n, ast.Return) for n in ast.walk(s)):
+            # tail position (checked by _returns_only_structured): every branch assigns the result instead of returning
+            nb = _eliminate_returns(list(s.body) + list(s.orelse), make_assign) if s.orelse and not _always_returns(s.body) else _eliminate_returns(list(s.body), make_assign)
+            hs = [ast.copy_location(ast.ExceptHandler(type=h.type, name=h.name, body=_eliminate_returns(list(h.body), make_assign)), h) for h in s.handlers]
+            out.append(ast.copy_location(ast.Try(body=nb, handlers=hs, orelse=[], finalbody=s.finalbody), s))
             return out
         if isinstance(s, ast.If) and any(isinstance(n, ast.Return) for n in ast.walk(s)):
             rest = stmts[k + 1:]
@@ -165,10 +178,29 @@ class Inliner:
         self.counter += 1
         sfx = f"__{h.name.strip('_')}{self.counter}"
         mapping = {n: n + sfx for n in _locals_of(h)}
+        # in/out parameters: `x, a = h(..., p=a)` where every return of h hands p back at that position -- the helper works on the
+        # caller's variable itself (threaded counters): p is the caller's name, no copy in, no copy out
+        coalesced = set()
+        if result_targets and len(result_targets) == 1:
+            tg = result_targets[0]
+            tnames = [e.id if isinstance(e, ast.Name) else None for e in tg.elts] if isinstance(tg, ast.Tuple) else [tg.id if isinstance(tg, ast.Name) else None]
+            rets = [n for n in ast.walk(h) if isinstance(n, ast.Return)]
+            for (pn, v) in binding:
+                if isinstance(v, ast.Name) and v.id in tnames and tnames.count(v.id) == 1:
+                    j = tnames.index(v.id)
+                    ok = bool(rets)
+                    for r in rets:
+                        val = r.value
+                        elts = val.elts if isinstance(val, ast.Tuple) and isinstance(tg, ast.Tuple) else ([val] if not isinstance(tg, ast.Tuple) else None)
+                        if elts is None or len(elts) != len(tnames) or not (isinstance(elts[j], ast.Name) and elts[j].id == pn):
+                            ok = False
+                    if ok:
+                        mapping[pn] = v.id
+                        coalesced.add(pn)
         body = [copy.deepcopy(s) for s in h.body if not (isinstance(s, ast.Expr) and isinstance(s.value, ast.Constant))]
         ren = _Renamer(mapping)
         body = [ren.visit(s) for s in body]
-        pre = [ast.Assign(targets=[ast.Name(id=mapping[p], ctx=ast.Store())], value=copy.deepcopy(v)) for (p, v) in binding]
+        pre = [ast.Assign(targets=[ast.Name(id=mapping[p], ctx=ast.Store())], value=copy.deepcopy(v)) for (p, v) in binding if p not in coalesced]
 
         def make_assign(value, node):
             if result_targets is None:
@@ -568,10 +600,23 @@ def split_tuples(fn):
     return changed
 
 
+def drop_self_assignments(fn):
+    changed = False
+    for lst in list(_stmt_lists(fn)):
+        for st in list(lst):
+            if isinstance(st, ast.Assign) and len(st.targets) == 1 and isinstance(st.targets[0], ast.Name) and isinstance(st.value, ast.Name) \
+                    and st.targets[0].id == st.value.id:
+                lst.remove(st)
+                if not lst:
+                    lst.append(ast.copy_location(ast.Pass(), st))
+                changed = True
+    return changed
+
+
 def normalise(fn):
     ch = False
     for _ in range(3):
-        c = scalarise_dict_literals(fn) | fold_attribute_stores(fn) | split_tuples(fn)
+        c = scalarise_dict_literals(fn) | fold_attribute_stores(fn) | split_tuples(fn) | drop_self_assignments(fn)
         ch |= c
         if not c:
             break
@@ -601,6 +646,8 @@ def inlined(mod, qual, keep=(), tail=False):
         if inl.inlined:
             propagate_param_copies(f2)
         changed = normalise(f2)
+        if changed:
+            propagate_param_copies(f2)      # `d__k = param` left by a scalarised container literal: the parameter itself
         if inl.inlined or changed:
             renumber(f2)
             res = (f2, inl.inlined)
